@@ -13,6 +13,24 @@ import tempfile
 import facts as F
 
 
+def _prune(tdir):
+    """The shared target directory keeps the compiled dependencies (they never change); what was built from the analysed tree and from the
+    scratch witness crate is keyed by their paths, differs for every analysed copy and is removed again (≈40 MB per copy otherwise)."""
+    import glob
+    for sub, pats in (("deps", ("libfastcgi_server-*", "fastcgi_server-*", "libfcgi_witness-*", "fcgi_witness-*")),
+                      (".fingerprint", ("fastcgi-server-*", "fcgi-witness-*")),
+                      ("incremental", ("fastcgi_server-*", "fcgi_witness-*"))):
+        for pat in pats:
+            for f in glob.glob(os.path.join(tdir, "debug", sub, pat)):
+                if os.path.isdir(f):
+                    shutil.rmtree(f, ignore_errors=True)
+                else:
+                    try:
+                        os.unlink(f)
+                    except OSError:
+                        pass
+
+
 def run(rep, prop, rule="E7"):
     repo = os.environ.get("FCGI_VERIF_REPO", F.REPO)
     src = os.path.join(F.VERIF, "witness")
@@ -37,8 +55,11 @@ def run(rep, prop, rule="E7"):
             r = subprocess.run(["cargo", "+nightly", "test", "--doc", "--offline", "--", flt],
                                cwd=work, env=env, capture_output=True, text=True)
         finally:
-            fcntl.flock(lock, fcntl.LOCK_UN)
-            lock.close()
+            try:
+                _prune(env["CARGO_TARGET_DIR"])
+            finally:
+                fcntl.flock(lock, fcntl.LOCK_UN)
+                lock.close()
         out = r.stdout + r.stderr
         tests = re.findall(r"^test (src/lib\.rs - (\S+) \(line \d+\)( - compile fail)?) \.\.\. (\w+)", out, re.M)
         if not tests:
